@@ -664,18 +664,45 @@ func (em *emitter) emitImport(node *ast.Import, isTemplate bool) []*runtime.Func
 	}
 
 	if !blankImport {
+		// As the type checker does, import only the names listed after
+		// 'for', if present, and keep the first declaration of a name
+		// already imported from another file.
+		imported := func(name string) bool {
+			if node.For == nil {
+				return true
+			}
+			for _, ident := range node.For {
+				if ident.Name == name {
+					return true
+				}
+			}
+			return false
+		}
+
 		// Make available the imported functions.
 		for name, fn := range funcs {
+			if !imported(name) {
+				continue
+			}
 			if importName != "" {
 				name = importName + "." + name
+			}
+			if _, ok := em.fnStore.availableScriggoFn(targetPkg, name); ok {
+				continue
 			}
 			em.fnStore.makeAvailableScriggoFn(targetPkg, name, fn)
 		}
 
 		// Add the imported variables.
 		for name, v := range vars {
+			if !imported(name) {
+				continue
+			}
 			if importName != "" {
 				name = importName + "." + name
+			}
+			if _, ok := em.varStore.scriggoPackageVarRefs[targetPkg][name]; ok {
+				continue
 			}
 			em.varStore.bindScriggoPackageVar(targetPkg, name, v)
 		}
